@@ -118,7 +118,7 @@ static int g_res;
 static void ph_full(void *u) {
     int64_t N = spec_numcells(g_res);
     for (int64_t i = mc_wid; i < N; i += mc_nw) {
-        if ((i & 1023) == mc_wid && mc_expired()) return;
+        if (mc_tick(1023)) return;
         mc_states(1);
         MC_RUN(OP_CELL, H(spec_cell_at(g_res, i)));
     }
@@ -127,7 +127,7 @@ static U64Vec g_dom;
 static void ph_cells(void *u) {
     for (size_t i = 0; i < g_dom.n; i++) {
         if (!mc_mine(i)) continue;
-        if ((i & 1023) == 0 && mc_expired()) return;
+        if (mc_tick(1023)) return;
         mc_states(1);
         MC_RUN(OP_CELL, H(g_dom.v[i]));
     }
